@@ -3,6 +3,7 @@ from __future__ import annotations
 
 import itertools
 
+from .. import core
 from ..core import Prop, Violation
 from ._coord import CoordMixin, gen_cfg, gen_exec, gen_multi_kill, CP_SCRIPTS
 
@@ -11,6 +12,7 @@ class C14(CoordMixin, Prop):
     id = "C14"
     title = "Coordinated operations release every resource on every exit path"
     fixed_prefix = 1
+    extractors = ["py2lean-coord"]
     quick_budget = 2500
     thorough_budget = 40000
     all_branches = ["cell:ok", "cell:blocked", "cell:post-raise", "x:blocked", "x:unknown", "x:reentrant", "x:preempted", "x:cp0-fail", "x:cp1-fail", "x:cp2-fail",
@@ -27,6 +29,10 @@ class C14(CoordMixin, Prop):
     ]
     trusted_modelled = ["modelled, not verified: ResourceLock, CellCycleController, Watchdog, PriorityInheritance, "
                         "CoordinationSystem.execute_operation as Operon.Coord.* (Model/Coord*.lean)"]
+
+    def extract(self, ctx):
+        from ..extract import py2lean_coord
+        return py2lean_coord.run(core.REPO, core.LEAN, core.write_if_changed)
 
     # --- generation ---------------------------------------------------------------------------------------
     def _setup_lines(self, rng, nres, nothers):
